@@ -23,6 +23,10 @@ func fn() {
 	_ = math.Pow(x*2, 2) //@ diag(`could expand call to math.Pow`)
 	_ = math.Pow(x+2, 2) //@ diag(`could expand call to math.Pow`)
 
+	_ = 1 / math.Pow(x, 2) //@ diag(`could expand call to math.Pow`)
+	_ = -math.Pow(x, 3)    //@ diag(`could expand call to math.Pow`)
+	_ = 1 / math.Pow(x, 1) //@ diag(`could expand call to math.Pow`)
+
 	_ = math.Pow(x, x)
 	_ = math.Pow(x, -1)
 }
